@@ -3,7 +3,7 @@
 Sequential half: explicit-state search to closure over {write, read, setFileSize, abort, setBufferSize}
 against a reference model.  Concurrent half: producer, consumer and a third thread (setFileSize(n) or
 abort()) on the bare queue - every interleaving at synchronisation points with preemption bound 2 and
-unbounded free switches, deviation bound 3, and all interleavings without any bound for n <= 2."""
+unbounded free switches, deviation bound 3, and all interleavings without any bound for n <= 3."""
 from checks import schedcheck, seqcheck
 
 
@@ -30,7 +30,7 @@ def stages(tier):
                         "setFileSize(tellp) by the producer}"))
     st.append(dict(label="D3: deviation bound 3", harness="h_queue", variant="sched", chunk=2,
                    configs=[qcfg(c, n, t, 3, 0) for c in (1, 2, 3) for n in range(0, 5) for t in thirds], share=0.3))
-    full_n = (0, 1, 2) if quick else (0, 1, 2, 3)
+    full_n = (0, 1, 2, 3)
     st.append(dict(label="ALL: every interleaving (no bound)", harness="h_queue", variant="sched", chunk=1,
                    configs=[qcfg(c, n, t, 60, 1) for c in (1, 2, 3) for n in full_n for t in thirds], share=0.5))
     st.append(dict(label="ASAN: preemption bound 2 under AddressSanitizer", harness="h_queue", variant="sched-asan", chunk=2,
